@@ -4,4 +4,5 @@ import ScsiVerif.Gen.Opcodes
 import ScsiVerif.Gen.Commands
 import ScsiVerif.Gen.Facade
 import ScsiVerif.Gen.Sense
+import ScsiVerif.Gen.Enums
 import ScsiVerif.Props.C10
